@@ -8,10 +8,70 @@
 #ifndef VP_ENDPOINT_CONTRACTS_H
 #define VP_ENDPOINT_CONTRACTS_H
 /* clang-format off */
-#ifdef VP_COVER
-#define COVER(c) __CPROVER_ensures(!(c))
+/* reachability probes (non-vacuity of the postconditions): a unit run with
+ * -DVP_COVER_<unit> turns the COVER clauses of the function it ENFORCES into
+ * negated ensures, each of which must then FAIL.  Never active in normal runs,
+ * never active for a replaced callee (it would be assumed there). */
+#define COVER_ON(c) __CPROVER_ensures(!(c))
+#ifdef VP_COVER_listener_timer_cb
+#define COV_listener_timer_cb(c) COVER_ON(c)
 #else
-#define COVER(c)
+#define COV_listener_timer_cb(c)
+#endif
+#ifdef VP_COVER_listener_accept_cb
+#define COV_listener_accept_cb(c) COVER_ON(c)
+#else
+#define COV_listener_accept_cb(c)
+#endif
+#ifdef VP_COVER_listener_start
+#define COV_listener_start(c) COVER_ON(c)
+#else
+#define COV_listener_start(c)
+#endif
+#ifdef VP_COVER_dialer_timer_cb
+#define COV_dialer_timer_cb(c) COVER_ON(c)
+#else
+#define COV_dialer_timer_cb(c)
+#endif
+#ifdef VP_COVER_dialer_connect_cb
+#define COV_dialer_connect_cb(c) COVER_ON(c)
+#else
+#define COV_dialer_connect_cb(c)
+#endif
+#ifdef VP_COVER_dialer_start_aio
+#define COV_dialer_start_aio(c) COVER_ON(c)
+#else
+#define COV_dialer_start_aio(c)
+#endif
+#ifdef VP_COVER_dialer_start
+#define COV_dialer_start(c) COVER_ON(c)
+#else
+#define COV_dialer_start(c)
+#endif
+#ifdef VP_COVER_listener_start_pipe
+#define COV_listener_start_pipe(c) COVER_ON(c)
+#else
+#define COV_listener_start_pipe(c)
+#endif
+#ifdef VP_COVER_dialer_start_pipe
+#define COV_dialer_start_pipe(c) COVER_ON(c)
+#else
+#define COV_dialer_start_pipe(c)
+#endif
+#ifdef VP_COVER_pipe_start
+#define COV_pipe_start(c) COVER_ON(c)
+#else
+#define COV_pipe_start(c)
+#endif
+#ifdef VP_COVER_pipe_remove
+#define COV_pipe_remove(c) COVER_ON(c)
+#else
+#define COV_pipe_remove(c)
+#endif
+#ifdef VP_COVER_pipe_reap
+#define COV_pipe_reap(c) COVER_ON(c)
+#else
+#define COV_pipe_reap(c)
 #endif
 #define FRESH(p, T) __CPROVER_is_fresh(p, sizeof(T))
 #define ALIAS(target, ptr) __CPROVER_pointer_in_range_dfcc(target, ptr, target)
@@ -56,31 +116,36 @@ __CPROVER_ensures(OLD(EP_PCLOSED(p)) ? g_reap_calls == OLD(g_reap_calls)
 __CPROVER_requires(PIPE_OPS_OK(p) && SOCK_CBS_OK((p)->p_sock) && (p)->p_last_event == NNG_PIPE_EV_NONE) \
 __CPROVER_requires(VP_NO_LOCK_HELD && g_cbs_mtx == &(p)->p_sock->s_pipe_cbs_mtx)
 #define START_PIPE_ASSIGNS(p) (p)->p_last_event, (p)->p_closed, G_CB, G_PSTART, G_REAP, G_RELE, g_env_closed, VP_SYNC_GHOSTS
+/* clauses without __CPROVER_old of a pipe field, guarded by c (so that callers whose pipe exists only when c holds can state them) */
+#define START_PIPE_POST_C(c, p) \
+__CPROVER_ensures((c) ==> (EP_STARTED || g_pstart_calls == OLD(g_pstart_calls))) \
+__CPROVER_ensures(((c) && !EP_STARTED) ==> EP_PCLOSED(p)) \
+/* a pipe found closed after ADD_PRE by the callback / another thread is never started */ \
+__CPROVER_ensures(((c) && g_env_closed != OLD(g_env_closed)) ==> !EP_STARTED) \
+/* the protocol's pipe_start runs after the ADD_PRE callback and before ADD_POST */ \
+__CPROVER_ensures(((c) && EP_STARTED) ==> (g_pstart_data == (p)->p_proto_data && g_pstart_at_cb == OLD(g_cb_calls) + (WANT(p) ? CBN((p)->p_sock, NNG_PIPE_EV_ADD_PRE) : 0))) \
+/* events: ADD_PRE always first; ADD_POST iff the pipe was not closed and the protocol accepted it */ \
+__CPROVER_ensures(((c) && !WANT(p)) ==> ((p)->p_last_event == NNG_PIPE_EV_NONE && g_cb_calls == OLD(g_cb_calls))) \
+__CPROVER_ensures(((c) && WANT(p)) ==> (p)->p_last_event == (EP_START_OK ? NNG_PIPE_EV_ADD_POST : NNG_PIPE_EV_ADD_PRE)) \
+__CPROVER_ensures(((c) && WANT(p)) ==> g_cb_calls == OLD(g_cb_calls) + CBN((p)->p_sock, NNG_PIPE_EV_ADD_PRE) + (EP_START_OK ? CBN((p)->p_sock, NNG_PIPE_EV_ADD_POST) : 0)) \
+/* rejected by the protocol: torn down (closed, handed to the reaper once) */ \
+__CPROVER_ensures(((c) && EP_STARTED && g_pstart_rv != 0) ==> (EP_PCLOSED(p) && g_reap_calls == OLD(g_reap_calls) + 1 && g_reap_item == (p) && g_reap_list == &pipe_reap_list)) \
+__CPROVER_ensures(((c) && !(EP_STARTED && g_pstart_rv != 0)) ==> g_reap_calls == OLD(g_reap_calls)) \
+__CPROVER_ensures(((c) && EP_START_OK) ==> !EP_PCLOSED(p)) \
+/* the creator's hold is dropped exactly once on every path */ \
+__CPROVER_ensures((c) ==> (g_rele_calls == OLD(g_rele_calls) + 1 && g_rele_rc == &(p)->p_refcnt))
 #define START_PIPE_POST(p) \
 __CPROVER_ensures(VP_NO_LOCK_HELD) \
-__CPROVER_ensures(EP_STARTED || g_pstart_calls == OLD(g_pstart_calls)) \
-/* a pipe found closed after ADD_PRE (closed before, or closed by the callback / another thread) is never started: it carries no application messages */ \
-__CPROVER_ensures((OLD(EP_PCLOSED(p)) || g_env_closed != OLD(g_env_closed)) ==> !EP_STARTED) \
-__CPROVER_ensures(!EP_STARTED ==> EP_PCLOSED(p)) \
-/* the protocol's pipe_start runs after the ADD_PRE callback and before ADD_POST */ \
-__CPROVER_ensures(EP_STARTED ==> (g_pstart_data == (p)->p_proto_data && g_pstart_at_cb == OLD(g_cb_calls) + (WANT(p) ? CBN((p)->p_sock, NNG_PIPE_EV_ADD_PRE) : 0))) \
-/* events: ADD_PRE always first; ADD_POST iff the pipe was not closed and the protocol accepted it */ \
-__CPROVER_ensures(!WANT(p) ==> ((p)->p_last_event == NNG_PIPE_EV_NONE && g_cb_calls == OLD(g_cb_calls))) \
-__CPROVER_ensures(WANT(p) ==> (p)->p_last_event == (EP_START_OK ? NNG_PIPE_EV_ADD_POST : NNG_PIPE_EV_ADD_PRE)) \
-__CPROVER_ensures(WANT(p) ==> g_cb_calls == OLD(g_cb_calls) + CBN((p)->p_sock, NNG_PIPE_EV_ADD_PRE) + (EP_START_OK ? CBN((p)->p_sock, NNG_PIPE_EV_ADD_POST) : 0)) \
-/* rejected by the protocol: torn down (closed, handed to the reaper once) */ \
-__CPROVER_ensures((EP_STARTED && g_pstart_rv != 0) ==> (EP_PCLOSED(p) && g_reap_calls == OLD(g_reap_calls) + 1 && g_reap_item == (p) && g_reap_list == &pipe_reap_list)) \
-__CPROVER_ensures(!(EP_STARTED && g_pstart_rv != 0) ==> g_reap_calls == OLD(g_reap_calls)) \
-__CPROVER_ensures(EP_START_OK ==> !EP_PCLOSED(p)) \
-/* the creator's hold is dropped exactly once on every path */ \
-__CPROVER_ensures(g_rele_calls == OLD(g_rele_calls) + 1 && g_rele_rc == &(p)->p_refcnt)
+/* a pipe that was closed before ADD_PRE is never started: it carries no application messages */ \
+__CPROVER_ensures(OLD(EP_PCLOSED(p)) ==> !EP_STARTED) \
+START_PIPE_POST_C(1, p)
 
 static void listener_start_pipe(nni_listener *l, nni_pipe *p)
 __CPROVER_requires(FRESH(l, *l) && FRESH(p, *p) && FRESH(p->p_sock, SOCKT) && ALIAS(p->p_sock, l->l_sock))
 START_PIPE_PRE(p)
 __CPROVER_assigns(START_PIPE_ASSIGNS(p))
 START_PIPE_POST(p)
-COVER(EP_START_OK && WANT(p)) COVER(EP_STARTED && g_pstart_rv != 0) COVER(!EP_STARTED && g_env_closed != OLD(g_env_closed))
+COV_listener_start_pipe(EP_START_OK && WANT(p)) COV_listener_start_pipe(EP_STARTED && g_pstart_rv != 0) COV_listener_start_pipe(!EP_STARTED && g_env_closed != OLD(g_env_closed))
 ;
 
 static void dialer_start_pipe(nni_dialer *d, nni_pipe *p)
@@ -92,7 +157,7 @@ __CPROVER_assigns(START_PIPE_ASSIGNS(p), d->d_pipe, d->d_currtime)
 START_PIPE_POST(p)
 /* the new pipe is THE pipe of the dialer; the back-off restarts from the configured minimum */
 __CPROVER_ensures(d->d_pipe == p && d->d_currtime == d->d_inirtime && EP_RT_INV(d))
-COVER(EP_START_OK && WANT(p)) COVER(EP_STARTED && g_pstart_rv != 0) COVER(!EP_STARTED && g_env_closed != OLD(g_env_closed))
+COV_dialer_start_pipe(EP_START_OK && WANT(p)) COV_dialer_start_pipe(EP_STARTED && g_pstart_rv != 0) COV_dialer_start_pipe(!EP_STARTED && g_env_closed != OLD(g_env_closed))
 ;
 
 /* nni_pipe_start: dispatch to the listener's / the dialer's start step (exactly one of the two is set) */
@@ -107,7 +172,7 @@ __CPROVER_assigns(START_PIPE_ASSIGNS(p))
 __CPROVER_assigns(p->p_dialer != NULL: p->p_dialer->d_pipe, p->p_dialer->d_currtime)
 START_PIPE_POST(p)
 __CPROVER_ensures(PD(p) != NULL ==> (PD(p)->d_currtime == PD(p)->d_inirtime && EP_RT_INV(PD(p)) && ALIAS(p, PD(p)->d_pipe)))
-COVER(PD(p) != NULL && EP_START_OK) COVER(PD(p) == NULL && EP_START_OK)
+COV_pipe_start(PD(p) != NULL && EP_START_OK) COV_pipe_start(PD(p) == NULL && EP_START_OK)
 ;
 
 /* list node of a pipe: not on a list, or linked between its two neighbours
@@ -148,7 +213,7 @@ __CPROVER_requires(VP_NO_LOCK_HELD)
 REMOVE_ASSIGNS(p)
 __CPROVER_ensures(VP_NO_LOCK_HELD)
 REMOVE_POST(p)
-COVER(REDIAL(p)) COVER(PD(p) != NULL && !g_owned) COVER(OLD(p->p_sock_node.ln_next) != NULL && g_sole_a) COVER(OLD(p->p_ep_node.ln_next) != NULL && !g_sole_b)
+COV_pipe_remove(REDIAL(p)) COV_pipe_remove(PD(p) != NULL && !g_owned) COV_pipe_remove(OLD(p->p_sock_node.ln_next) != NULL && g_sole_a) COV_pipe_remove(OLD(p->p_ep_node.ln_next) != NULL && !g_sole_b)
 ;
 
 /* ------------------------------------------------------------------ pipe.c */
@@ -177,7 +242,172 @@ __CPROVER_ensures(g_pstop_calls == OLD(g_pstop_calls) + 1 && g_pstop_at_cb == g_
 __CPROVER_ensures(RP->p_id != 0 ? (g_idrm_calls == OLD(g_idrm_calls) + 1 && g_idrm_id == RP->p_id && g_idrm_at_cb == g_cb_calls) : g_idrm_calls == OLD(g_idrm_calls))
 __CPROVER_ensures(g_rele_calls == OLD(g_rele_calls) + 1 && g_rele_rc == &RP->p_refcnt && g_rele_at_cb == g_cb_calls)
 REMOVE_POST(RP)
-COVER(REM_DELIV && CBN(RP->p_sock, NNG_PIPE_EV_REM_POST)) COVER(!REM_DELIV && WANT(RP)) COVER(REDIAL(RP))
+COV_pipe_reap(REM_DELIV && CBN(RP->p_sock, NNG_PIPE_EV_REM_POST)) COV_pipe_reap(!REM_DELIV && WANT(RP)) COV_pipe_reap(REDIAL(RP))
+;
+
+/* -------------------------------------------------------------- listener.c */
+#define LL ((nni_listener *) arg)
+#define LP ((nni_pipe *) LL->l_acc_aio.a_outputs[0])
+#define LR (LL->l_acc_aio.a_result)
+#define L_OPS_OK(l) ((l)->l_ops.l_accept == vp_l_accept && (l)->l_ops.l_bind == vp_l_bind && (l)->l_ops.l_close == vp_ep_close && (l)->l_ops.l_stop == vp_ep_stop)
+#define ACCEPT_ARMED(l) (g_accept_calls == OLD(g_accept_calls) + 1 && g_accept_aio == &(l)->l_acc_aio && g_accept_data == (l)->l_data)
+#define ACCEPT_SAME (g_accept_calls == OLD(g_accept_calls))
+#define SLEEP_SAME (g_sleep_calls == OLD(g_sleep_calls))
+
+/* exactly one accept is handed to the transport, on the listener's accept aio */
+static void listener_accept_start(nni_listener *l)
+__CPROVER_requires(FRESH(l, *l) && L_OPS_OK(l))
+__CPROVER_assigns(G_ACCEPT)
+__CPROVER_ensures(ACCEPT_ARMED(l))
+;
+
+/* cool-down timer: accept is re-armed unless the timer was stopped / cancelled */
+static void listener_timer_cb(void *arg)
+__CPROVER_requires(FRESH(arg, nni_listener) && L_OPS_OK(LL))
+__CPROVER_assigns(G_ACCEPT)
+__CPROVER_ensures(LL->l_tmo_aio.a_result == 0 ? ACCEPT_ARMED(LL) : ACCEPT_SAME)
+COV_listener_timer_cb(LL->l_tmo_aio.a_result == 0) COV_listener_timer_cb(LL->l_tmo_aio.a_result != 0)
+;
+
+/* accept completion.  C14: a listener keeps accepting whatever happens to
+ * individual connections -- after every result other than closed / stopped /
+ * cancelled, accept is armed again: at once, or (resource exhaustion and
+ * unknown errors) after a 100 ms cool-down through the timer */
+static void listener_accept_cb(void *arg)
+__CPROVER_requires(FRESH(arg, nni_listener) && FRESH(LL->l_sock, SOCKT) && L_OPS_OK(LL) && VP_NO_LOCK_HELD)
+__CPROVER_requires(LR == 0 ==> (FRESH(LL->l_acc_aio.a_outputs[0], nni_pipe) && ALIAS(LL->l_sock, LP->p_sock) && ALIAS(LL, LP->p_listener) && LP->p_dialer == NULL
+    && PIPE_OPS_OK(LP) && SOCK_CBS_OK(LP->p_sock) && LP->p_last_event == NNG_PIPE_EV_NONE && g_cbs_mtx == &LP->p_sock->s_pipe_cbs_mtx))
+__CPROVER_assigns(G_ACCEPT, G_SLEEP, G_CB, G_PSTART, G_REAP, G_RELE, g_env_closed, VP_SYNC_GHOSTS)
+__CPROVER_assigns(LR == 0: LP->p_last_event, LP->p_closed)
+__CPROVER_ensures(VP_NO_LOCK_HELD)
+/* success: the new pipe goes through the socket's start step exactly once, accept re-armed at once */
+__CPROVER_ensures(LR == 0 ==> (ACCEPT_ARMED(LL) && SLEEP_SAME))
+START_PIPE_POST_C(LR == 0, LP)
+/* failures concerning one connection: re-armed at once, no delay */
+__CPROVER_ensures(EP_ACC_TRANSIENT(LR) ==> (ACCEPT_ARMED(LL) && SLEEP_SAME))
+/* closed / stopped / cancelled: not re-armed */
+__CPROVER_ensures(EP_END(LR) ==> (ACCEPT_SAME && SLEEP_SAME))
+/* anything else (NNG_ENOMEM, NNG_ENOFILES, ...): re-armed after the cool-down */
+__CPROVER_ensures((LR != 0 && !EP_ACC_TRANSIENT(LR) && !EP_END(LR)) ==> (ACCEPT_SAME && g_sleep_calls == OLD(g_sleep_calls) + 1 && g_sleep_ms == 100 && g_sleep_aio == &LL->l_tmo_aio))
+/* no pipe activity without a new pipe */
+__CPROVER_ensures(LR != 0 ==> (g_cb_calls == OLD(g_cb_calls) && g_pstart_calls == OLD(g_pstart_calls) && g_rele_calls == OLD(g_rele_calls) && g_reap_calls == OLD(g_reap_calls)))
+/* top level: keeps accepting until closed */
+__CPROVER_ensures(!EP_END(LR) ==> ((g_accept_calls == OLD(g_accept_calls) + 1) != (g_sleep_calls == OLD(g_sleep_calls) + 1)))
+COV_listener_accept_cb(LR == 0 && EP_START_OK) COV_listener_accept_cb(LR == NNG_ECONNABORTED) COV_listener_accept_cb(LR == NNG_ENOMEM) COV_listener_accept_cb(LR == NNG_ECLOSED)
+;
+
+/* starting: refuses a second start; a bind failure leaves the listener startable again and arms nothing; success arms exactly one accept */
+int nni_listener_start(nni_listener *l, int flags)
+__CPROVER_requires(FRESH(l, *l) && FRESH(l->l_sock, SOCKT) && L_OPS_OK(l))
+__CPROVER_assigns(l->l_started, G_ACCEPT, g_bind_calls)
+__CPROVER_ensures(OLD(EP_FLAG(l->l_started)) ==> (RV == NNG_ESTATE && EP_FLAG(l->l_started) && ACCEPT_SAME && g_bind_calls == OLD(g_bind_calls)))
+__CPROVER_ensures((!OLD(EP_FLAG(l->l_started)) && g_bind_rv != 0) ==> (RV == g_bind_rv && !EP_FLAG(l->l_started) && ACCEPT_SAME && g_bind_calls == OLD(g_bind_calls) + 1))
+__CPROVER_ensures((!OLD(EP_FLAG(l->l_started)) && g_bind_rv == 0) ==> (RV == 0 && EP_FLAG(l->l_started) && ACCEPT_ARMED(l) && g_bind_calls == OLD(g_bind_calls) + 1))
+COV_listener_start(RV == 0) COV_listener_start(RV == NNG_ESTATE) COV_listener_start(RV == NNG_EADDRINUSE)
+;
+
+/* stopping: transport closed first (aborts a pending accept), then both aios
+ * stopped (their callbacks have run and nothing new can be started on them),
+ * then the transport's stop -- in this order */
+#define STOP_POST(data) \
+__CPROVER_ensures(g_epclose_calls == OLD(g_epclose_calls) + 1 && g_epclose_data == (data) && g_epstop_calls == OLD(g_epstop_calls) + 1 && g_epstop_data == (data) && g_aiostop_calls == OLD(g_aiostop_calls) + 2) \
+__CPROVER_ensures(g_seq == OLD(g_seq) + 4 && g_epclose_seq == OLD(g_seq) + 1 && g_aiostop_seq_a == OLD(g_seq) + 2 && g_aiostop_seq_b == OLD(g_seq) + 3 && g_epstop_seq == OLD(g_seq) + 4)
+#define G_STOP g_seq, g_epclose_calls, g_epclose_seq, g_epclose_data, g_epstop_calls, g_epstop_seq, g_epstop_data, g_aiostop_calls, g_aiostop_seq_a, g_aiostop_seq_b
+void nni_listener_stop(nni_listener *l)
+__CPROVER_requires(FRESH(l, *l) && L_OPS_OK(l) && g_aio_a == &l->l_tmo_aio && g_aio_b == &l->l_acc_aio)
+__CPROVER_assigns(G_STOP)
+STOP_POST(l->l_data)
+;
+
+/* ---------------------------------------------------------------- dialer.c */
+#define DD ((nni_dialer *) arg)
+#define DP ((nni_pipe *) DD->d_con_aio.a_outputs[0])
+#define DR (DD->d_con_aio.a_result)
+#define D_OPS_OK(d) ((d)->d_ops.d_connect == vp_d_connect && (d)->d_ops.d_close == vp_ep_close && (d)->d_ops.d_stop == vp_ep_stop)
+#define CONNECT_STARTED(d) (g_connect_calls == OLD(g_connect_calls) + 1 && g_connect_aio == &(d)->d_con_aio && g_connect_data == (d)->d_data && g_con_busy)
+#define CONNECT_SAME (g_connect_calls == OLD(g_connect_calls) && g_con_busy == OLD(g_con_busy))
+
+/* exactly one connect is handed to the transport; the transport model asserts
+ * that no other connect of this dialer is outstanding */
+static void dialer_connect_start(nni_dialer *d)
+__CPROVER_requires(FRESH(d, *d) && D_OPS_OK(d) && !g_con_busy)
+__CPROVER_assigns(G_CONNECT)
+__CPROVER_ensures(CONNECT_STARTED(d) && g_connect_at_sleep == g_sleep_calls)
+;
+
+/* back-off timer expiry: dial again -- unless the timer was stopped / cancelled
+ * (dialer or socket closing).  Runs only while the dialer owns no pipe and no
+ * connect is outstanding */
+static void dialer_timer_cb(void *arg)
+__CPROVER_requires(FRESH(arg, nni_dialer) && D_OPS_OK(DD) && !g_con_busy && DD->d_pipe == NULL)
+__CPROVER_assigns(G_CONNECT)
+__CPROVER_ensures(DD->d_tmo_aio.a_result == 0 ? CONNECT_STARTED(DD) : CONNECT_SAME)
+COV_dialer_timer_cb(DD->d_tmo_aio.a_result == 0) COV_dialer_timer_cb(DD->d_tmo_aio.a_result != 0)
+;
+
+/* connect completion */
+#define DU OLD(DD->d_user_aio)
+static void dialer_connect_cb(void *arg)
+__CPROVER_requires(FRESH(arg, nni_dialer) && FRESH(DD->d_sock, SOCKT) && D_OPS_OK(DD) && VP_NO_LOCK_HELD)
+__CPROVER_requires(DD->d_user_aio == NULL || FRESH(DD->d_user_aio, nni_aio))
+/* the completed connect was the dialer's only activity: no pipe owned, nothing outstanding */
+__CPROVER_requires(!g_con_busy && DD->d_pipe == NULL && EP_RT_INV(DD))
+__CPROVER_requires(DR == 0 ==> (FRESH(DD->d_con_aio.a_outputs[0], nni_pipe) && ALIAS(DD->d_sock, DP->p_sock) && ALIAS(DD, DP->p_dialer) && DP->p_listener == NULL
+    && PIPE_OPS_OK(DP) && SOCK_CBS_OK(DP->p_sock) && DP->p_last_event == NNG_PIPE_EV_NONE && g_cbs_mtx == &DP->p_sock->s_pipe_cbs_mtx))
+__CPROVER_assigns(DD->d_user_aio, DD->d_started, DD->d_currtime, DD->d_pipe, G_FIN, G_SLEEP, G_CB, G_PSTART, G_REAP, G_RELE, g_env_closed, VP_SYNC_GHOSTS)
+__CPROVER_assigns(DR == 0: DP->p_last_event, DP->p_closed)
+__CPROVER_ensures(VP_NO_LOCK_HELD && CONNECT_SAME)
+/* the user's synchronous dial aio is completed exactly once, with the connect result, and forgotten */
+__CPROVER_ensures(DD->d_user_aio == NULL)
+__CPROVER_ensures(DU != NULL ? (g_fin_calls == OLD(g_fin_calls) + 1 && g_fin_aio == DU && g_fin_rv == (int) DR && g_fin_count == 0) : g_fin_calls == OLD(g_fin_calls))
+/* success: the pipe becomes THE pipe of the dialer and goes through the start step once; back-off reset; no timer */
+__CPROVER_ensures(DR == 0 ==> (DD->d_pipe == DP && DD->d_currtime == DD->d_inirtime && SLEEP_SAME))
+START_PIPE_POST_C(DR == 0, DP)
+/* failure: no pipe */
+__CPROVER_ensures(DR != 0 ==> (DD->d_pipe == NULL && g_cb_calls == OLD(g_cb_calls) && g_pstart_calls == OLD(g_pstart_calls) && g_rele_calls == OLD(g_rele_calls) && g_reap_calls == OLD(g_reap_calls)))
+/* background dial failed (not closed): dials again after a random delay no longer than the larger configured reconnect time */
+__CPROVER_ensures((DR != 0 && !EP_END(DR) && DU == NULL) ==> (g_sleep_calls == OLD(g_sleep_calls) + 1 && g_sleep_aio == &DD->d_tmo_aio && g_sleep_ms >= 0 && g_sleep_ms <= EP_MAX(DD->d_inirtime, DD->d_maxrtime)))
+/* synchronous dial failed, or the dialer is closed / stopped / cancelled: NO redial */
+__CPROVER_ensures((DR != 0 && (EP_END(DR) || DU != NULL)) ==> (SLEEP_SAME && DD->d_currtime == OLD(DD->d_currtime)))
+/* a failed synchronous dial leaves the dialer startable again */
+__CPROVER_ensures((DR != 0 && !EP_END(DR) && DU != NULL) ? !EP_FLAG(DD->d_started) : EP_FLAG(DD->d_started) == OLD(EP_FLAG(DD->d_started)))
+/* the back-off invariant is kept; at most one of {pipe owned, timer started} afterwards */
+__CPROVER_ensures(EP_RT_INV(DD) && !(DD->d_pipe != NULL && g_sleep_calls != OLD(g_sleep_calls)))
+COV_dialer_connect_cb(DR == 0 && DU != NULL && EP_START_OK) COV_dialer_connect_cb(DR == NNG_ECONNREFUSED && DU == NULL) COV_dialer_connect_cb(DR == NNG_ECONNREFUSED && DU != NULL) COV_dialer_connect_cb(DR == NNG_ECLOSED)
+;
+
+/* starting a dialer: refuses a second start (nothing happens); otherwise exactly one connect, the user's aio (if any) remembered for the completion */
+int nni_dialer_start_aio(nni_dialer *d, unsigned flags, nni_aio *aiop)
+__CPROVER_requires(FRESH(d, *d) && FRESH(d->d_sock, SOCKT) && D_OPS_OK(d) && VP_NO_LOCK_HELD && (aiop == NULL || FRESH(aiop, nni_aio)))
+/* a dialer that was never started has no connect outstanding */
+__CPROVER_requires(!EP_FLAG(d->d_started) ==> !g_con_busy)
+__CPROVER_assigns(d->d_started, d->d_user_aio, G_CONNECT, g_aiostart_calls, g_aiostart_aio, VP_SYNC_GHOSTS)
+__CPROVER_ensures(VP_NO_LOCK_HELD && EP_FLAG(d->d_started))
+__CPROVER_ensures(OLD(EP_FLAG(d->d_started)) ==> (RV == NNG_ESTATE && CONNECT_SAME && g_aiostart_calls == OLD(g_aiostart_calls) && d->d_user_aio == OLD(d->d_user_aio)))
+__CPROVER_ensures(!OLD(EP_FLAG(d->d_started)) ==> (RV == 0 && CONNECT_STARTED(d) && d->d_user_aio == aiop))
+__CPROVER_ensures((!OLD(EP_FLAG(d->d_started)) && aiop != NULL) ==> (g_aiostart_calls == OLD(g_aiostart_calls) + 1 && g_aiostart_aio == aiop))
+COV_dialer_start_aio(RV == 0 && aiop != NULL) COV_dialer_start_aio(RV == NNG_ESTATE)
+;
+
+/* blocking / non-blocking start */
+int nni_dialer_start(nni_dialer *d, unsigned flags)
+__CPROVER_requires(FRESH(d, *d) && FRESH(d->d_sock, SOCKT) && D_OPS_OK(d) && VP_NO_LOCK_HELD)
+__CPROVER_requires(!EP_FLAG(d->d_started) ==> !g_con_busy)
+__CPROVER_assigns(d->d_started, d->d_user_aio, G_CONNECT, g_aiostart_calls, g_aiostart_aio, g_aioinit_calls, g_aiofini_calls, g_aiowait_calls, g_aiowait_aio, VP_SYNC_GHOSTS)
+__CPROVER_ensures(VP_NO_LOCK_HELD && EP_FLAG(d->d_started))
+__CPROVER_ensures(OLD(EP_FLAG(d->d_started)) ==> (RV == NNG_ESTATE && CONNECT_SAME && g_aiowait_calls == OLD(g_aiowait_calls)))
+__CPROVER_ensures(!OLD(EP_FLAG(d->d_started)) ==> CONNECT_STARTED(d))
+/* non-blocking: returns at once, the completion is nobody's business (background dial: failures are retried by the timer) */
+__CPROVER_ensures((!OLD(EP_FLAG(d->d_started)) && (flags & NNG_FLAG_NONBLOCK) != 0) ==> (RV == 0 && d->d_user_aio == NULL && g_aiowait_calls == OLD(g_aiowait_calls) && g_aioinit_calls == OLD(g_aioinit_calls)))
+/* blocking: waits for the connect completion and returns its result; the private aio is set up and torn down once */
+__CPROVER_ensures((!OLD(EP_FLAG(d->d_started)) && (flags & NNG_FLAG_NONBLOCK) == 0) ==> (RV == g_wait_result && g_aiowait_calls == OLD(g_aiowait_calls) + 1 && g_aioinit_calls == OLD(g_aioinit_calls) + 1 && g_aiofini_calls == OLD(g_aiofini_calls) + 1 && g_aiostart_calls == OLD(g_aiostart_calls) + 1))
+COV_dialer_start(RV == NNG_ECONNREFUSED) COV_dialer_start(RV == NNG_ESTATE) COV_dialer_start(RV == 0 && (flags & NNG_FLAG_NONBLOCK) != 0)
+;
+
+void nni_dialer_stop(nni_dialer *d)
+__CPROVER_requires(FRESH(d, *d) && D_OPS_OK(d) && g_aio_a == &d->d_tmo_aio && g_aio_b == &d->d_con_aio)
+__CPROVER_assigns(G_STOP)
+STOP_POST(d->d_data)
 ;
 /* clang-format on */
 #endif
